@@ -170,3 +170,29 @@ Theorem C07_pruner_or_with_unanalysable_side :
     mentions_key_cmp b key = false -> prunable (EBinary 1 a b) key = false.
 Proof. exact or_with_unanalysable_side_not_prunable. Qed.
 Print Assumptions C07_pruner_or_with_unanalysable_side.
+
+(* Tie T: the type switch of Optimizer.concurrentPath is re-translated from
+   compiler/optimizer/parallelize.go by go2coq on every run
+   (Gen/ParallelizeGen.v).  Interpreting the translated table is the
+   hand-written concurrent_path for every operator list (so the theorems above
+   speak about the code's own case table), and in the translated text every
+   positional operator kind is `return k, sortKeys, true, true`. *)
+From ZV Require Import Model.CpTable Gen.ParallelizeGen Proofs.ParallelizeGenProofs.
+
+Theorem C07_concurrent_path_translated :
+  forall ops k sk,
+    cp_interp gen_concurrentPath_case gen_concurrentPath_final ops k sk = concurrent_path ops k sk.
+Proof. exact concurrent_path_gen_ok. Qed.
+Print Assumptions C07_concurrent_path_translated.
+
+Theorem C07_positional_requires_order_translated :
+  forall o r k sk,
+    positional_op o = true ->
+    cp_interp gen_concurrentPath_case gen_concurrentPath_final (o :: r) k sk = (k, sk, true, true).
+Proof. exact positional_requires_order_translated. Qed.
+Print Assumptions C07_positional_requires_order_translated.
+
+Theorem C07_positional_kinds_stop_translated :
+  forall k, positional_kind k = true -> gen_concurrentPath_case k = BRet IK KsKeep true true.
+Proof. exact positional_kinds_stop_translated. Qed.
+Print Assumptions C07_positional_kinds_stop_translated.
